@@ -22,8 +22,8 @@ for pid in ["C03", "C09", "C11", "C14", "C17", "C18"]:
     p = props[pid]
     q = p.get("quantifier", {})
     q = q.get("text", q) if isinstance(q, dict) else q
-    anchors = p.get("anchors", [])
-    anchors = ", ".join(a if isinstance(a, str) else a.get("file", str(a)) for a in anchors)
+    anchors = p.get("anchors", {})
+    anchors = ", ".join(anchors.get("files", [])) if isinstance(anchors, dict) else ", ".join(map(str, anchors))
     text = (f"Property {pid}: {p.get('title', '')}\n\nStatement: {p.get('statement', '')}\n\nQuantifier: {q}\n\n"
             f"Why the existing tests cannot settle it: {p.get('why_tests_cant', '')}\n\nAnchored in files: {anchors}")
     t = tmpl.replace("@WT@", f"/tmp/wt{rnd}-{pid.lower()}").replace("@ID@", pid).replace("@PROP@", text)
